@@ -2,3 +2,4 @@
 import PasskeyVerif.Props.C16
 import PasskeyVerif.Props.C10
 import PasskeyVerif.Props.C01
+import PasskeyVerif.Props.C12
